@@ -2,6 +2,7 @@ package rgen
 
 import (
 	"fmt"
+	"strings"
 
 	"pgregory.net/rapid"
 )
@@ -18,13 +19,18 @@ type GenOpts struct {
 	// NoPartialDescriptors keeps alert trip descriptors to the classes for which the fallback
 	// rule is fully determined by the statement.
 	NoPartialDescriptors bool
+	// NoSizeClasses switches off the occasional large message (17/33/70 trips, updates, selectors or alerts).
+	NoSizeClasses bool
 }
 
 func DefaultGenOpts(zone string) GenOpts {
 	return GenOpts{Zone: zone, MaxTrips: 5, MaxVehicles: 4, MaxIdless: 2, MaxAlerts: 3, MaxSTU: 5, MaxSelectors: 5}
 }
 
-var idStrings = []string{"A", "b", "1", "L03N", "123456_A..N", "x y", "é", "漢", "a,b", "\"q\"", " lead", "T", "t", "0"}
+var idStrings = []string{"A", "b", "1", "L03N", "123456_A..N", "x y", "é", "漢", "a,b", "\"q\"", " lead", "T", "t", "0", longID}
+
+// longID is longer than any small fixed buffer (300 bytes).
+var longID = strings.Repeat("long-identifier-", 19)
 
 func opt[T any](t *rapid.T, label string, g *rapid.Generator[T]) *T {
 	if rapid.Bool().Draw(t, label+"?") {
@@ -267,6 +273,7 @@ type MsgInfo struct {
 	RefOnlyVehicles                 int
 	MultiMention                    int // trips or vehicles mentioned by >= 2 entities
 	Kinds                           int
+	SizeClass                       int // 0, or the enlarged bound of this message
 }
 
 // GenMsg draws a conflict-free message: at most one own entity per trip and per vehicle, every
@@ -275,6 +282,21 @@ type MsgInfo struct {
 func GenMsg(t *rapid.T, o GenOpts) (*Msg, MsgInfo) {
 	var info MsgInfo
 	m := &Msg{Timestamp: opt(t, "headerTs", gUTime64)}
+	if !o.NoSizeClasses && rapid.IntRange(0, 24).Draw(t, "sizeClass") == 0 {
+		// size class: counts beyond the thresholds code plausibly contains (16, 32, 64 entries; 256-byte buffers)
+		n := rapid.SampledFrom([]int{17, 33, 70}).Draw(t, "sizeN")
+		switch rapid.IntRange(0, 3).Draw(t, "sizeWhat") {
+		case 0:
+			o.MaxTrips, o.MaxVehicles = n, n
+		case 1:
+			o.MaxSTU = n
+		case 2:
+			o.MaxSelectors = n
+		default:
+			o.MaxAlerts, o.MaxIdless = n, n/4
+		}
+		info.SizeClass = n
+	}
 	nT := rapid.IntRange(0, o.MaxTrips).Draw(t, "nTrips")
 	nV := rapid.IntRange(0, o.MaxVehicles).Draw(t, "nVehicles")
 	nI := rapid.IntRange(0, o.MaxIdless).Draw(t, "nIdless")
